@@ -167,7 +167,7 @@ ShapeOf(id) == Shapes[(id % Len(Shapes)) + 1]
    the observables by the law's power before it compares them with the emitted exact values.  The laws are
    checked exactly by TLC for k = 2 where that is not a tautology (ProjScaleLaw, SmwScaleLaw, EigScaleLaw,
    SvdScaleLaw); chordal distances and principal angles are functions of the two projectors.            *)
-ScaleOf(id) == <<0, -7, 0, 7, -13, 3, 13, 0>>[Pick(LcgStart(Seed, id + 7777), 8) + 1]
+ScaleOf(id) == <<0, -7, 0, 7, -13, 3, 13, 0>>[Pick(LcgIter(LcgStart(Seed, id), 11), 8) + 1]
 ScalePower(kind) ==
     CASE kind \in {"proj", "projhist"} -> [A |-> 1, P |-> 0]                      \* P(kA) = P(A)
       [] kind \in {"chord", "chordx"}   -> [A |-> 1, B |-> -1, d2 |-> 0]           \* d(kA, B/k) = d(A, B), same angles
